@@ -8,6 +8,7 @@
    glob patterns, hex spellings ...): the correspondence check skips them.
    No proofs here. *)
 From YQ Require Import Base.Str Model.Node Model.Store Spec.MergeSpec.
+From YQ Require Model.Bounds.
 From Coq Require Import ZArith.
 
 Inductive binop :=
@@ -100,9 +101,33 @@ Fixpoint find_key (es : list (str * node)) (k : str) (i : nat) : list nat :=
   | (k', _) :: r => if str_eqb k' k then i :: find_key r k (S i) else find_key r k (S i)
   end.
 
-(* matchKey(name, pattern) restricted to patterns without * and ? *)
+(* matchKey(name, pattern): Model/Bounds.v models matchKeyString.go line by line (C11 proves it total:
+   the non-Ok branch below is unreachable, see C11_match_key_total) *)
+Definition glob_match (name pat : str) : res bool :=
+  match Bounds.match_key name pat with Bounds.Ok b => Ok b | _ => Unsup end.
+
+Fixpoint find_glob (es : list (str * node)) (pat : str) (i : nat) : res (list nat) :=
+  match es with
+  | [] => Ok []
+  | (k', _) :: r =>
+      let* b := glob_match k' pat in
+      let* t := find_glob r pat (S i) in
+      Ok (if b then i :: t else t)
+  end.
+
 Definition trav_map (ro : bool) (k : str) (p : ptr) (es : list (str * node)) (st : store) : res out :=
-  if is_wild k then Unsup else
+  if is_wild k then
+    (* a pattern selects every matching key in document order; with no match it is auto-created literally *)
+    let* idxs := find_glob es k O in
+    match idxs with
+    | [] =>
+        if ro then Ok ([], st)
+        else
+          let st' := update st p (fun _ => Map (es ++ [(k, null_node)])) in
+          Ok ([(fst p, snd p ++ [length es])], st')
+    | _ => Ok (map (fun i => (fst p, snd p ++ [i])) idxs, st)
+    end
+  else
   match find_key es k O with
   | [] =>
       if ro then Ok ([], st)
@@ -459,7 +484,8 @@ Definition eq_nodes (flip : bool) (st : store) (lp rp : option ptr) : res out :=
       match ln, rn with
       | Scalar TNull _, _ => mk_bool st (Some l) (xorb flip (is_null_node rn))
       | Scalar _ lv, Scalar _ rv =>
-          if is_wild rv then Unsup else mk_bool st (Some l) (xorb flip (str_eqb lv rv))
+          if is_wild rv then (let* b := glob_match lv rv in mk_bool st (Some l) (xorb flip b))
+          else mk_bool st (Some l) (xorb flip (str_eqb lv rv))
       | _, _ => mk_bool st (Some l) flip
       end
   end.
